@@ -1223,15 +1223,15 @@ impl<'a, S: Storage> BTree<'a, S> {
             leaf.update_cell_value_shrink(cell_index, new_value)?;
             Ok(true)
         } else {
+            // delete_cell releases the slot but not the old cell's bytes, so the re-inserted cell
+            // needs room for the whole new cell, not just for the size increase
             let value_len_size = varint_len(new_value.len() as u64);
-            let old_value_len_size = varint_len(old_value_len as u64);
-            let size_increase = (new_value.len() + value_len_size)
-                .saturating_sub(old_value_len + old_value_len_size);
+            let new_cell_size = key.len() + value_len_size + new_value.len();
 
             let page_data = self.storage.page(page_no)?;
             let leaf = LeafNode::from_page(page_data)?;
 
-            if (leaf.free_space() as usize) >= size_increase {
+            if (leaf.free_space() as usize) >= new_cell_size {
                 let page_data = self.storage.page_mut(page_no)?;
                 let mut leaf = LeafNodeMut::from_page(page_data)?;
                 leaf.delete_cell(cell_index)?;
